@@ -107,7 +107,13 @@ func (j *cacheJanitor[MetadataT]) cleanExpiredEntries() {
 	keysToRemove := make([]CacheKey, 0)
 
 	for key, meta := range j.cacheFns.cacheIterator {
+		// The metadata is only stable under the key's lock; an entry that is in use right now is looked at next time
+		lock := j.cacheFns.getLock(key)
+		if !lock.TryLock() {
+			continue
+		}
 		expired := meta.Expires.Before(time.Now())
+		lock.Unlock()
 
 		if !expired {
 			continue
@@ -166,8 +172,14 @@ func (j *cacheJanitor[MetadataT]) evict(maxCacheBytes int64) {
 	now := time.Now()
 
 	for key, meta := range j.cacheFns.cacheIterator {
+		// The metadata is only stable under the key's lock; an entry that is in use right now is not a candidate
+		lock := j.cacheFns.getLock(key)
+		if !lock.TryLock() {
+			continue
+		}
 		timeSinceAccess := now.Sub(meta.LastAccess).Milliseconds()
 		sizeWeight := meta.Size / bytesize.UnitM
+		lock.Unlock()
 
 		// Calculate eviction priority (highest = evict first)
 		// Factors: age since last access + file size weight
